@@ -767,20 +767,13 @@ Lemma resolve_deps_esc depsf fns i f st b xs :
   Forall (fun x => caught_earlier (escape x) = false) xs ->
   resolve_deps depsf (S (S (S (S f)))) st b (map (fun x => rdep_of E fns i (esc_arg x)) xs) = ((st, b), ROk (map VStr xs)).
 Proof.
-  intros HF. cbn [resolve_deps].
+  intros HF. rewrite resolve_deps_unfold.
   enough (forall acc,
-    (fix each (l : list rdep) (st : rt) (b : bag) (acc : list value) {struct l} : (rt * bag) * result (list value) :=
-       match l with
-       | [] => ((st, b), ROk (rev acc))
-       | d :: l' => match resolve_dep depsf (S (S (S f))) st b d with
-                    | ((st', b'), ROk v) => each l' st' b' (v :: acc)
-                    | ((st', b'), RErr e) => ((st', b'), RErr e)
-                    end
-       end) (map (fun x => rdep_of E fns i (esc_arg x)) xs) st b acc = ((st, b), ROk (rev acc ++ map VStr xs))) as HH
+    deps_loop depsf (S (S (S f))) (map (fun x => rdep_of E fns i (esc_arg x)) xs) st b acc None = ((st, b), ROk (rev acc ++ map VStr xs))) as HH
     by (rewrite HH; reflexivity).
   induction HF as [|x xs Hx _ IH]; intros acc.
-  - cbn [map]. rewrite app_nil_r. reflexivity.
-  - cbn [map]. rewrite rdep_of_esc_arg by exact Hx.
+  - cbn [map deps_loop fin]. rewrite app_nil_r. reflexivity.
+  - cbn [map deps_loop]. rewrite rdep_of_esc_arg by exact Hx.
     cbn [resolve_dep]. rewrite eval_pattern_escape. rewrite IH. cbn [rev]. rewrite <- app_assoc. reflexivity.
 Qed.
 
